@@ -168,7 +168,7 @@ def build_driver():
             return True, exe
         for s in srcs:
             shutil.copy(s, b)
-        rc, out = sh("ocamlfind ocamlopt -O2 -w -a -o hbdriver hb.mli hb.ml driver.ml", cwd=b, timeout=600)
+        rc, out = sh("ocamlfind ocamlopt -package str -linkpkg -O2 -w -a -o hbdriver hb.mli hb.ml driver.ml", cwd=b, timeout=600)
         return rc == 0, (exe if rc == 0 else out)
 
 VARIANTS = {
